@@ -1,6 +1,6 @@
 (* Case record and correspondence checker for connection-level runs (M1).  No proofs. *)
 From Passage Require Import Lib.Bytes Codec.VarInt Codec.Desc Gen.PacketsGen Gen.ConstsGen
-  Codec.PacketCheck Crypto.Cookie Conn.Types Conn.Prog Conn.Sem1 Conn.Monitor Conn.Order Conn.Checks Conn.Reader.
+  Codec.PacketCheck Crypto.Cookie Conn.Types Conn.Prog Conn.Sem1 Conn.Sem2 Conn.Monitor Conn.Order Conn.Checks Conn.Reader.
 
 Record conn_case := {
   cc_cfg : conn_cfg;
@@ -252,11 +252,50 @@ Definition obs_trace (c : conn_case) : list tev :=
   let obs := merge_obs c (cc_order c) sends (cc_calls c) None ++ [TEnd (cc_outcome c)] in
   hybrid (untime (case_trace c)) obs.
 
+(* ---- M2: the byte-level model, which takes the cancellation / deferral effects into
+   account.  Compared with the implementation on the raw timed segments, in every class. *)
+Definition case_trace2 (c : conn_case) : trace :=
+  run2 (case_oracles c) (cc_cfg c) (case_env c) (cc_segs c).
+
+Definition corr_gen (tr : trace) (c : conn_case) : Z :=
+  match tr_sent tr with
+  | None => 4
+  | Some ms =>
+      let untimed := Z.testbit (cc_flags c) 2 in
+      let strip (l : list (Z * Z * bytes)) := if untimed then map (fun x => (0, snd (fst x), snd x)) l else l in
+      let stripc (l : list (Z * call)) := if untimed then map (fun x => (0, snd x)) l else l in
+      (* tokio's select! without `biased` starts polling at a random branch: when the
+         keep-alive branch fails in the very instant a raced adapter call is started, the
+         call may or may not have been issued.  Both are accepted, for that last call only. *)
+      let mc := tr_calls tr in
+      let last_at_end := match List.rev mc, tr_end tr with
+                         | (tc, _) :: _, Some (te, OErr _) => tc =? te
+                         | _, _ => false end in
+      if sent_eqb (strip ms) (strip (cc_sent c))
+         && (calls_eqb (stripc mc) (stripc (cc_calls c))
+             || (last_at_end && calls_eqb (stripc (removelast mc)) (stripc (cc_calls c))))
+         && match tr_end tr with
+            | Some (t, o) => outcome_eqb o (cc_outcome c) && (untimed || (t =? cc_end c))
+            | None => false
+            end
+      then 0 else 1
+  end.
+Definition corr_conn2 (c : conn_case) : Z := corr_gen (case_trace2 c) c.
+Definition corr_diag2 (c : conn_case) : Z :=
+  let tr := case_trace2 c in
+  (match tr_sent tr with Some ms => if sent_eqb ms (cc_sent c) then 0 else 1 | None => 1 end)
+  + (if calls_eqb (tr_calls tr) (cc_calls c) then 0 else 2)
+  + (match tr_end tr with Some (t, o) => (if outcome_eqb o (cc_outcome c) then 0 else 4) + (if t =? cc_end c then 0 else 8) | None => 12 end).
+
+(* both models must reproduce the run: M1 on the frames, M2 on the delivered bytes *)
+Definition corr_both (c : conn_case) : Z :=
+  let k := corr_conn c in if k =? 0 then corr_conn2 c else k.
+
 Definition moni (b : bool) : Z := if b then 0 else 2.
 
 (* correspondence + the property's monitor on the implementation's trace *)
 Definition check_with (chk : oracles -> conn_cfg -> mst -> tev -> bool) (c : conn_case) : Z :=
-  let k := corr_conn c in
+  let k := corr_both c in
   if k =? 4 then 4
   else k + moni (accepts (step_with (chk (case_oracles c) (cc_cfg c))) m_init (obs_trace c)
                  && negb (outcome_eqb (cc_outcome c) (OErr KPanic))).   (* a crashed handler satisfies nothing *)
@@ -344,7 +383,7 @@ Definition obs_c07 (c : conn_case) : bool :=
   end.
 
 Definition check_c07 (c : conn_case) : Z :=
-  let k := corr_conn c in
+  let k := corr_both c in
   if k =? 4 then 4 else k + moni (obs_c07 c && negb (outcome_eqb (cc_outcome c) (OErr KPanic))).
 
 (* ---- C04 on the implementation's observation ---- *)
@@ -458,3 +497,49 @@ Definition with_class (c : conn_case) (code : Z) : Z :=
 
 Definition check_c04b (c : conn_case) : Z := with_class c (check_c04 c).
 Definition check_c08b (c : conn_case) : Z := with_class c (check_c08 c).
+
+(* what C08 compares: the packets sent (Keep Alive left out: how many there are depends on
+   how long the run takes), the services consulted, the outcome *)
+Definition obs_untimed (tr : trace) : list (Z * bytes) * list call * option outcome :=
+  (match tr_sent tr with
+   | Some l => map (fun x => (snd (fst x), snd x)) (filter (fun x => negb (snd (fst x) =? 4) || negb (Z.of_nat (length (snd x)) =? 8)) l)
+   | None => [] end,
+   map snd (tr_calls tr),
+   match tr_end tr with Some (_, o) => Some o | None => None end).
+
+Fixpoint idb_eqb (a b : list (Z * bytes)) : bool :=
+  match a, b with
+  | [], [] => true
+  | (i, x) :: a', (j, y) :: b' => (i =? j) && beq x y && idb_eqb a' b'
+  | _, _ => false
+  end.
+Fixpoint callsu_eqb (a b : list call) : bool :=
+  match a, b with [], [] => true | x :: a', y :: b' => call_eqb x y && callsu_eqb a' b' | _, _ => false end.
+
+Definition obsu_eqb (a b : list (Z * bytes) * list call * option outcome) : bool :=
+  idb_eqb (fst (fst a)) (fst (fst b)) && callsu_eqb (snd (fst a)) (snd (fst b))
+  && match snd a, snd b with Some x, Some y => outcome_eqb x y | None, None => true | _, _ => false end.
+
+(* does this schedule make the byte-level behaviour differ from the frame-level one?
+   0 no; 16 * class otherwise (class 3 = outside the two known classes) *)
+Definition m1m2_class (c : conn_case) : Z :=
+  let m1 := run1 (case_oracles c) (cc_cfg c) (case_env c) (frames_of (cf_max_len (cc_cfg c)) (cc_segs c)) in
+  if obsu_eqb (obs_untimed m1) (obs_untimed (case_trace2 c)) then 0
+  else 16 * (if cancel_class c =? 0 then 3 else cancel_class c).
+
+(* C08: exact correspondence with M2 on every schedule; the monitor on the observation; and
+   the schedules on which segmentation / timing changes the behaviour, by class *)
+Definition check_c08c (c : conn_case) : Z :=
+  let k := corr_conn2 c in
+  if k =? 4 then 4 else
+  k + moni (negb (outcome_eqb (cc_outcome c) (OErr KPanic))
+            && negb (Z.testbit (cc_flags c) 1)
+            && (if Z.testbit (cc_flags c) 0 then true
+                else match first_badlen (frames_of (cf_max_len (cc_cfg c)) (cc_segs c)) with
+                     | Some _ => true
+                     | None => inbox_eqb (frames_of (cf_max_len (cc_cfg c)) (cc_segs c)) (cc_inbox c)
+                     end))
+    + m1m2_class c.
+
+Definition check_c04c (c : conn_case) : Z :=
+  let k := corr_conn2 c in if k =? 4 then 4 else k + moni (obs_c04 c).
